@@ -88,6 +88,16 @@ func c15Gen(rg *mon.Rng) *c15stmt {
 // c15Render renders tokens with random gaps, optionally with comments in
 // gaps, and returns the text and the byte span of token `want`.
 func c15Render(rg *mon.Rng, toks []gen.Tok, want int, comments bool) (string, int, int) {
+	return c15RenderX(rg, toks, want, comments, -1)
+}
+
+// c15Exotic are characters some lexers take for blanks and others do not. A
+// text that uses one as a separator is judged like any other: only if the
+// parser accepts it.
+var c15Exotic = []string{"\v", "\f", "\u0085", "\u00a0", "\u1680", "\u2003", "\u2028", "\u2029", "\u202f", "\u3000", "\ufeff", "\x00"}
+
+// c15RenderX: the gap in front of token exoticAt (when >= 0) is one exotic blank.
+func c15RenderX(rg *mon.Rng, toks []gen.Tok, want int, comments bool, exoticAt int) (string, int, int) {
 	var sb strings.Builder
 	st, en := -1, -1
 	for i, t := range toks {
@@ -102,6 +112,9 @@ func c15Render(rg *mon.Rng, toks []gen.Tok, want int, comments bool) (string, in
 			}
 			if comments && rg.P(0.3) {
 				g = g + []string{" /* c */ ", " -- c\n", "\n/* x = 'y' */\n", " /* password 'zz' */ ", " /* two\nlines */ ", " /* * ** / */ ", " -- İ\u212A\r\n"}[rg.Intn(7)]
+			}
+			if i == exoticAt {
+				g = c15Exotic[rg.Intn(len(c15Exotic))]
 			}
 		}
 		sb.WriteString(g)
@@ -212,7 +225,7 @@ func c15Known(text string, spans []c15span) string { return "" }
 
 func checkC15(c *Ctx) (string, bool, []string) {
 	r := c.R
-	rule := "CREATE USER ... WITH PASSWORD / SET PASSWORD FOR ... = statements with passwords built from unique markers joined by hostile separators (spaces, both quotes, backslash, =, ;, comment openers, newline escape, non-ASCII, the words 'password'/'with password'), hostile user names, every keyword case and whitespace layout incl. none around '=', comments in gaps; alone and among 1-4 statements of other kinds. Marker search in String() and Sanitize(); exact preservation of the text outside the literal spans; Sanitize(t)==t for statements of all other kinds. Non-trivial = password has a separator or layout differs from canonical; distinct by text."
+	rule := "CREATE USER ... WITH PASSWORD / SET PASSWORD FOR ... = statements with passwords built from unique markers joined by hostile separators (spaces, both quotes, backslash, =, ;, comment openers, newline escape, non-ASCII, the words 'password'/'with password'), hostile user names, every keyword case and whitespace layout incl. none around '=', comments in gaps, one separator replaced by a blank-like character outside [ \\t\\n\\r] (VT, FF, NEL, NBSP, EM SPACE, LINE SEPARATOR, BOM, NUL, ...) in a fifth of them; alone and among 1-4 statements of other kinds. Marker search in String() and Sanitize(); exact preservation of the text outside the literal spans; Sanitize(t)==t for statements of all other kinds. Non-trivial = password has a separator or layout differs from canonical; distinct by text."
 	assume := []string{"only parser-accepted texts are judged", "the replacement text for the literal is not prescribed, only that it carries no password material"}
 	if c.Replay != nil {
 		local := map[string]int64{}
@@ -256,7 +269,12 @@ func checkC15(c *Ctx) (string, bool, []string) {
 				}
 			}
 			s := c15Gen(rg)
-			t, st, en := c15Render(rg, s.toks, s.pwTok, comments)
+			exoticAt := -1
+			if rg.P(0.2) {
+				exoticAt = 1 + rg.Intn(len(s.toks)-1)
+				local["exotic-blank-variants"]++
+			}
+			t, st, en := c15RenderX(rg, s.toks, s.pwTok, comments, exoticAt)
 			spans = append(spans, c15span{sb.Len() + st, sb.Len() + en})
 			sb.WriteString(t)
 			markers = append(markers, s.markers...)
